@@ -110,10 +110,38 @@ func runConcurrentBans(b core.Batch, em *core.Emitter) {
 						acked[i] = ok && rep.Err == 0
 					}(i)
 				}
+				// in every second round the operator reloads the ban file (SIGHUP / API reload) again and again meanwhile
+				stopReload, reloadDone := make(chan struct{}), make(chan struct{})
+				go func() {
+					defer close(reloadDone)
+					bf, ok := srv.S.BanList.(*verifshim.BanFile)
+					if !ok || round%2 == 0 {
+						return
+					}
+					<-start
+					for {
+						select {
+						case <-stopReload:
+							return
+						default:
+						}
+						bf.Load()
+						time.Sleep(100 * time.Microsecond)
+					}
+				}()
 				close(start)
 				wg.Wait()
+				close(stopReload)
+				<-reloadDone
 				srv.Quiesce(refclient.Watchdog)
 				res.Obs["concurrent_ban_requests"] += k
+				// the running server must hold every acknowledged ban (a reload during the bans must not have dropped one)
+				for i := 0; i < k; i++ {
+					if banned, _ := srv.S.BanList.IsBanned(ips[base+i]); acked[i] && !banned {
+						res.Verdict, res.Key = core.Violated, "C17/concurrent-bans/lost-in-memory"
+						res.Msg = fmt.Sprintf("round %d: the ban of %s was acknowledged (while the ban file was being reloaded), but the running server does not hold it", round, ips[base+i])
+					}
+				}
 				// what a restart would read: a fresh ban list loaded from the file
 				fresh, err := verifshim.NewBanFile(banPath)
 				if err != nil {
